@@ -43,6 +43,10 @@ type Scenario struct {
 	Check func(x *vrt.Exec) []Finding
 	// NoCache disables happens-before state caching (pure stateless search).
 	NoCache bool
+	// Journal makes the worker record the schedule it is about to run, so that a worker
+	// killed by the runtime (fatal error, out of memory) is reported as a violation of
+	// that execution instead of an internal failure.
+	Journal bool
 	// Outcome summarises the observable outcome (vacuity guard); may be nil.
 	Outcome func(x *vrt.Exec) string
 }
@@ -64,10 +68,10 @@ type Stats struct {
 }
 
 type Violation struct {
-	Scenario string  `json:"scenario"`
-	Finding  Finding `json:"finding"`
-	Choices  []int   `json:"choices"`
-	Cost     int     `json:"cost"`
+	Scenario string   `json:"scenario"`
+	Finding  Finding  `json:"finding"`
+	Choices  []int    `json:"choices"`
+	Cost     int      `json:"cost"`
 	Trace    []string `json:"trace,omitempty"`
 }
 
@@ -139,7 +143,7 @@ func panicSite(stk string) string {
 	lines := strings.Split(stk, "\n")
 	for _, l := range lines {
 		l = strings.TrimSpace(l)
-		if strings.HasPrefix(l, "/repo/") {
+		if strings.HasPrefix(l, "/repo/") || strings.HasPrefix(l, "/verif/mc/cmd/") || strings.HasPrefix(l, "/verif/mc/sc/") || strings.HasPrefix(l, "/verif/mc/stacks/") {
 			if i := strings.Index(l, " "); i > 0 {
 				l = l[:i]
 			}
@@ -147,6 +151,36 @@ func panicSite(stk string) string {
 		}
 	}
 	return "unknown"
+}
+
+var journalPath string
+var journalFile *os.File
+
+// writeJournal overwrites the journal record in place (one pwrite per execution): a
+// fixed-width length followed by JSON.
+func writeJournal(scenario string, prefix []int) {
+	if journalFile == nil {
+		f, err := os.OpenFile(journalPath, os.O_CREATE|os.O_RDWR, 0o644)
+		if err != nil {
+			return
+		}
+		journalFile = f
+	}
+	data, _ := json.Marshal(map[string]any{"scenario": scenario, "choices": prefix})
+	rec := append([]byte(fmt.Sprintf("%08d", len(data))), data...)
+	journalFile.WriteAt(rec, 0)
+}
+
+func readJournal(path string) []byte {
+	data, err := os.ReadFile(path)
+	if err != nil || len(data) < 8 {
+		return nil
+	}
+	n, err := strconv.Atoi(string(data[:8]))
+	if err != nil || 8+n > len(data) {
+		return nil
+	}
+	return data[8 : 8+n]
 }
 
 func ownerOf(prefix []int, shards int) int {
@@ -185,6 +219,9 @@ func (e *explorer) explore(prefix []int, depth int) {
 		return
 	}
 	owned := depth >= e.split || ownerOf(prefix, e.shards) == e.shard
+	if e.sc.Journal && journalPath != "" {
+		writeJournal(e.sc.Name, prefix)
+	}
 	x, fs := RunOnce(e.sc, prefix)
 	e.stats.Execs++
 	pts := x.Points
@@ -319,6 +356,7 @@ func Main(run *evid.Run, scenarios []*Scenario, budget time.Duration) {
 			deadline = time.Unix(sec, 0)
 		}
 		only := os.Getenv("VERIF_ONLY")
+		journalPath = os.Getenv("VERIF_JOURNAL")
 		w := bufio.NewWriter(os.Stdout)
 		var todo []*Scenario
 		for _, sc := range scenarios {
@@ -363,14 +401,34 @@ func Main(run *evid.Run, scenarios []*Scenario, budget time.Duration) {
 		go func(i int) {
 			defer wg.Done()
 			cmd := exec.Command(os.Args[0], "-tier", run.Tier)
-			cmd.Env = append(os.Environ(), fmt.Sprintf("VERIF_SHARD=%d/%d", i, shards), fmt.Sprintf("VERIF_DEADLINE_UNIX=%d", deadline.Unix()), "GOMAXPROCS=2")
-			cmd.Stderr = os.Stderr
+			jp := fmt.Sprintf("%s/verif-journal-%d-%d", os.TempDir(), os.Getpid(), i)
+			cmd.Env = append(os.Environ(), fmt.Sprintf("VERIF_SHARD=%d/%d", i, shards), fmt.Sprintf("VERIF_DEADLINE_UNIX=%d", deadline.Unix()), "GOMAXPROCS=2", "VERIF_JOURNAL="+jp)
+			var stderr strings.Builder
+			cmd.Stderr = &stderr
 			out, err := cmd.Output()
 			mu.Lock()
 			defer mu.Unlock()
+			defer os.Remove(jp)
 			if err != nil {
+				// a worker that was killed while running a journaled execution: that execution
+				// terminated the process
+				if data := readJournal(jp); len(data) > 0 {
+					var j struct {
+						Scenario string `json:"scenario"`
+						Choices  []int  `json:"choices"`
+					}
+					if json.Unmarshal(data, &j) == nil && j.Scenario != "" {
+						msg := lastLines(stderr.String(), 3)
+						run.Violate(evid.Violation{Kind: "process-terminated", Site: j.Scenario, Detail: fmt.Sprintf("the worker process died (%v) while executing this schedule: %s", err, msg),
+							Witness: map[string]any{"scenario": j.Scenario, "choices": j.Choices}})
+						return
+					}
+				}
+				os.Stderr.WriteString(stderr.String())
 				fmt.Fprintf(os.Stderr, "shard %d failed: %v\n", i, err)
 				failed = true
+			} else {
+				os.Stderr.WriteString(stderr.String())
 			}
 			for _, line := range strings.Split(string(out), "\n") {
 				if strings.TrimSpace(line) == "" {
@@ -485,6 +543,22 @@ func Main(run *evid.Run, scenarios []*Scenario, budget time.Duration) {
 	run.Set("exhaustive", exhaustive)
 	run.Set("caps_hit", caps)
 	run.Set("explanation", "states = complete executions of the real (instrumented) code checked by the oracle, one per distinct schedule within the preemption/deviation bounds; transitions = scheduling points executed; every trace is an implementation trace")
+}
+
+func lastLines(s string, n int) string {
+	lines := strings.Split(strings.TrimSpace(s), "\n")
+	for i, l := range lines {
+		if strings.HasPrefix(l, "fatal error") || strings.HasPrefix(l, "panic:") || strings.HasPrefix(l, "runtime:") {
+			if i+n > len(lines) {
+				n = len(lines) - i
+			}
+			return strings.Join(lines[i:i+n], " | ")
+		}
+	}
+	if len(lines) > n {
+		lines = lines[len(lines)-n:]
+	}
+	return strings.Join(lines, " | ")
 }
 
 func replay(run *evid.Run, scenarios []*Scenario, file string) {
